@@ -1,6 +1,7 @@
 #!/bin/bash
 # usage: mut.sh <patchfile|-e 'sed expr' file> -- <check ids...>   (dev helper: apply a change to /repo, run baseline tests of v2 + checks, revert)
 set -u
+if [ -n "$(git -C /repo status --porcelain)" ]; then echo "mut.sh: /repo is dirty, refusing"; exit 9; fi
 export GOFLAGS=-mod=mod GOPROXY=off GOSUMDB=off GOTOOLCHAIN=local
 if [ "$1" = "-e" ]; then sed -i "$2" "/repo/$3"; shift 3; else git -C /repo apply "$1" || exit 3; shift; fi
 [ "$1" = "--" ] && shift
